@@ -511,10 +511,14 @@ _kw_only_loop = Contract(
           'found_arg_signature': BOOL, 'original_arg_name': ANY, 'kw_only_names_': ANY},
     families=['NameW'], yields=Obj('NameW'),
     invariants={0: ['all(d.string_name in used_names for d in DONE)', 'subset(PRE_used_names, used_names)',
-                    'subset(YKEYS, used_names)']},
+                    'subset(YKEYS, used_names)',
+                    # nothing is lost: every collected name not used before is among the yielded keys
+                    'all(d.string_name in PRE_used_names or d.string_name in YKEYS for d in DONE)',
+                    'subset(used_names, PRE_used_names | YKEYS)']},
     yield_each_local=['c in kw_only_names', 'c.string_name not in used_names'],
     yield_key='c.string_name',
-    ensures=['all(d.string_name in NEW_used_names for d in kw_only_names)'],
+    ensures=['all(d.string_name in NEW_used_names for d in kw_only_names)',
+             'all(d.string_name in used_names or d.string_name in YKEYS for d in kw_only_names)'],
     witness={}, replay=_replay_wrapper_params, concrete_only=True,
     witness_library=[{'own_kw': 'timeout', 'callee_kw': 'timeout'}, {'own_kw': 'timeout', 'callee_kw': 'deadline'}],
     concrete_ensures=['OWN in result[0]', 'result[1] == NAMES'],
